@@ -73,7 +73,7 @@ def cases(prop, tier, seed):
     rs = np.random.RandomState(seed + 11)
     out = []
     reps = 10 if tier == "quick" else 60
-    if prop in ("C11", "C12", "C13", "C09"):
+    if prop in ("C11", "C12", "C13", "C09", "C06"):
         for name, zz in clf_zoo().items():
             if zz.get("only") and prop not in zz["only"]:
                 continue
@@ -214,6 +214,36 @@ def run_c11(case, fail):
         i = int(np.argmax(chosen - costs.min(axis=1)))
         fail("C11.fallback_decision_is_sampled" if fallback else "C11.decision_not_cost_optimal", f"query {i}: predicted {ypl[i]} with expected cost {chosen[i]:.4f}, minimum {costs[i].min():.4f} "
                                               f"(classes {classes}, cost matrix {'default' if cm is None else cm.tolist()})")
+
+
+def run_c06(case, fail):
+    """classifier fit/predict is a function of the constructor parameters and the call arguments: twins with the same integer seed agree,
+    whatever the state of numpy's global generator (patterns include 'no label', a single class and ties)"""
+    Z = clf_zoo()
+    z = Z[case["model"]]
+    classes = CLASS_LISTS[case["cl"]]
+    ml = ml_for(classes)
+    X, y, lab, w, Xq = make_clf_data(case, classes, ml)
+    if len(X) < max(z.get("min_n", 0), 1):
+        return
+    Xq = np.vstack([Xq, Xq[:2], np.zeros((2, 2))])          # repeated query points: ties between rows must be broken reproducibly too
+    outs = []
+    for gseed in (1, 2, 3):
+        np.random.seed(gseed)
+        try:
+            c = fit(z["mk"](classes=classes, missing_label=ml, random_state=11), X, y, w)
+            P = np.asarray(c.predict_proba(Xq))
+            yp = np.asarray(c.predict(Xq)).tolist()
+            yp2 = np.asarray(c.predict(Xq)).tolist() if gseed == 1 else None
+        except Exception as e:
+            return
+        outs.append((np.round(P, 12).tobytes(), tuple(map(str, yp))))
+    np.random.seed(None)
+    if len({o[0] for o in outs}) != 1:
+        fail("C06.classifier_proba_depends_on_global_generator", "predict_proba of twins (random_state=11) differs under different global seeds")
+    # a fallback that samples labels is a known finding of C11; decisions are compared where the classifier was actually fitted
+    if len({o[1] for o in outs}) != 1 and getattr(c, "is_fitted_", True) is not False:
+        fail("C06.classifier_predict_depends_on_global_generator", f"predict of twins (random_state=11) differs under different global seeds: {[o[1] for o in outs][:2]}")
 
 
 def run_c09(case, fail):
@@ -507,7 +537,7 @@ def run_case(prop, case):
     def fail(what, detail):
         fails.append({"sig": f"{case['model']}:{what}", "detail": detail, "replay": {"module": "bounded.models", "prop": prop, "case": case}})
     try:
-        {"C11": run_c11, "C09": run_c09, "C12": run_c12, "C13": run_c13, "C15": run_c15}[case["kind"]](case, fail)
+        {"C11": run_c11, "C09": run_c09, "C12": run_c12, "C13": run_c13, "C15": run_c15, "C06": run_c06}[case["kind"]](case, fail)
     except ValueError as e:
         if case["kind"] == "C15" and "Domain error" in str(e):
             # scipy rejects the predictive distribution (scale 0 / NaN): the regressor produced an invalid distribution
